@@ -361,7 +361,26 @@ func init() {
 // S/MIME subscribers, AIA location shapes, adversarial DN values on leaf, CA
 // and self-issued templates.
 
-func genPoolSize() int { return len(gen.GNPool)*3 + len(c20AIAHosts)*2 + 120 }
+// name-constraint iPAddress payloads (address || mask): plain IPv4, IPv6, IPv4-mapped addresses under a 16-byte
+// mask (legal, rare), non-contiguous masks, odd lengths
+var ncPayloads = [][]byte{
+	{10, 0, 0, 0, 255, 0, 0, 0},
+	{8, 8, 0, 0, 255, 255, 0, 0},
+	{126, 0, 0, 0, 254, 0, 0, 0},
+	append([]byte{0x20, 0x01, 0x0d, 0xb8, 0, 0, 0, 0, 0, 0, 0, 0, 0, 0, 0, 0}, []byte{0xff, 0xff, 0xff, 0xff, 0, 0, 0, 0, 0, 0, 0, 0, 0, 0, 0, 0}...),
+	append([]byte{0x26, 0x06, 0x47, 0, 0, 0, 0, 0, 0, 0, 0, 0, 0, 0, 0, 0}, []byte{0xff, 0xff, 0xff, 0, 0, 0, 0, 0, 0, 0, 0, 0, 0, 0, 0, 0}...),
+	append([]byte{0, 0, 0, 0, 0, 0, 0, 0, 0, 0, 0xff, 0xff, 8, 8, 0, 0}, []byte{0xff, 0xff, 0xff, 0xff, 0xff, 0xff, 0xff, 0xff, 0xff, 0xff, 0xff, 0xff, 0xff, 0xff, 0, 0}...),
+	append([]byte{0, 0, 0, 0, 0, 0, 0, 0, 0, 0, 0xff, 0xff, 10, 0, 0, 0}, []byte{0xff, 0xff, 0xff, 0xff, 0xff, 0xff, 0xff, 0xff, 0xff, 0xff, 0xff, 0xff, 0xff, 0, 0, 0}...),
+	append([]byte{0, 0, 0, 0, 0, 0, 0, 0, 0, 0, 0xff, 0xff, 93, 184, 216, 34}, []byte{0xff, 0xff, 0xff, 0xff, 0xff, 0xff, 0xff, 0xff, 0xff, 0xff, 0xff, 0xff, 0xff, 0xff, 0xff, 0xff}...),
+	append([]byte{0, 0, 0, 0, 0, 0, 0, 0, 0, 0, 0xff, 0xfe, 0, 0, 0, 0}, []byte{0xff, 0xff, 0xff, 0xff, 0xff, 0xff, 0xff, 0xff, 0xff, 0xff, 0xff, 0xfe, 0, 0, 0, 0}...),
+	{8, 8, 8, 0, 255, 0, 255, 0},
+	{0, 0, 0, 0, 0, 0, 0, 0},
+	append(make([]byte, 16), make([]byte, 16)...),
+	{192, 0, 2, 0, 255, 255, 255},
+	{1, 2, 3, 4, 5},
+}
+
+func genPoolSize() int { return len(gen.GNPool)*3 + len(c20AIAHosts)*2 + 120 + 2*len(ncPayloads) }
 
 func genPoolCase(k int) (*mon.Obj, string) {
 	nb := gen.D(2024, 3, 1)
@@ -398,6 +417,17 @@ func genPoolCase(k int) (*mon.Obj, string) {
 		s.ReplaceExt(gen.ExtAIA(gen.AD(gen.OIDAdOCSP, gen.GNURI(u)), gen.AD(gen.OIDAdIssuers, gen.GNURI(u))))
 		o, _ := mon.ParseObj(0, "gen/pool/aia", s.DER())
 		return o, "AIA " + u
+	case k >= 3*n+2*len(c20AIAHosts)+120:
+		j := k - 3*n - 2*len(c20AIAHosts) - 120
+		s := gen.SubCA(nb)
+		p := ncPayloads[j%len(ncPayloads)]
+		if j/len(ncPayloads) == 0 {
+			s.Exts = append(s.Exts, gen.ExtNC(true, []*der.Node{gen.Subtree(gen.GNIP(p))}, nil))
+		} else {
+			s.Exts = append(s.Exts, gen.ExtNC(true, []*der.Node{gen.Subtree(gen.GNDNS("example.com"))}, []*der.Node{gen.Subtree(gen.GNIP(p))}))
+		}
+		o, _ := mon.ParseObj(0, "gen/pool/nc", s.DER())
+		return o, fmt.Sprintf("name-constraint iPAddress payload of %d bytes", len(p))
 	default:
 		j := k - 3*n - 2*len(c20AIAHosts)
 		rng := rand.New(rand.NewSource(int64(7700 + j/4)))
